@@ -170,6 +170,7 @@ def run_real(plan, limit='absent', sim_options=True, hook=None, env=None, on_eve
     out.starts = starts[0]
     out.fired = env.fired
     out.raw_urls = env.raw_urls
+    out.extra['interference'] = env.interference
     out.globals = user_globals_canon(
         globals_, lambda k, v: k in HOST_NAMES or (k in SCRIPT_FUNCTIONS and v is SCRIPT_FUNCTIONS[k]))
     out.extra['options'] = options
@@ -271,3 +272,32 @@ def compare_outcomes(real, ref):
             if real.globals.get(k, '<absent>') != ref.globals.get(k, '<absent>'):
                 return ('globals', k, real.globals.get(k, '<absent>'), ref.globals.get(k, '<absent>'))
     return None
+
+
+def interloper_probe(plan, stats, prop, baseline, run_fn):
+    """Fault kind `interloper`: the same run once more with nested, independent uses of the library (bsim.interloper)
+    injected into its host / fetch / log callbacks. The run must equal `baseline` (the same run without them) and
+    every nested use must behave as it does on its own. Returns a list of violations."""
+    from .core import Violation
+    spec = plan.get('interloper_spec')
+    if not spec or baseline is None or (baseline.error is not None and baseline.error[0] == 'watchdog'):
+        return []
+    p = dict(plan)
+    p['interlopers'] = spec
+    out = run_fn(p)
+    stats.c['evaluations'] += 1
+    fired = {k: v for k, v in (out.fired or {}).items() if k.startswith('interloper:')}
+    stats.faults.update(fired)
+    if not fired:
+        return []
+    stats.probes['nested_independent_use_inside_a_callback'] += 1
+    bad = out.extra.get('interference')
+    if bad:
+        return [Violation(prop, 'reentrant', 'nested-independent-use-disturbed:' + bad[0]['kind'], bad[0])]
+    a, b = out.summary(), baseline.summary()
+    if a != b or out.count != baseline.count:
+        what = next((k for k in ('events', 'error', 'result', 'globals') if a[k] != b[k]), 'statementCount')
+        return [Violation(prop, 'reentrant', 'run-disturbed-by-nested-independent-use:' + what,
+                          {'interlopers': spec, 'fired': fired, 'baseline_error': baseline.error, 'error': out.error,
+                           'baseline_count': baseline.count, 'count': out.count})]
+    return []
